@@ -1179,7 +1179,8 @@ def stream_mapping(ctx, programs):
             hits_seen += bool(maps)
             # the default path of the public observation point (accelerated matcher, here the pyx2py rendering): inside the
             # documented limits of that matcher it has to give the same mappings
-            if len(m) <= 130:
+            if len(m) <= 130 and _state.setdefault('default_cases', 0) < (20000 if ctx.quick else 60000):
+                _state['default_cases'] += 1
                 if accel_gap(text, m):
                     ctx.dist('map:default-path-outside-accelerated-domain')
                 else:
